@@ -1,8 +1,10 @@
 //! C11/C12/C13 (+ the pool clause of C05): one real CoroutinePool on the harness thread, virtual clock,
 //! min_size = 0, keep_alive_time = 0 (a worker exits as soon as it finds no task).
 //! body: `max <n> ; op | op | …`
-//! ops: sub <prog> <prio> | pass | adv <ns> | cancel <k> | stop | wait <k> | max <n>
-//!   task prog steps: S | D<ns> | P | R<v>
+//! ops: sub <prog> <prio> | pass | adv <ns> | cancel <k> | stop | wait <k> | max <n> | co | nowait <k> | settle
+//!   task prog steps: S | D<ns> | P | R<v> | C (the running task's coroutine is cancelled)
+//!   co = a user coroutine through submit_co; nowait = clean_task_result (a dropped join handle);
+//!   settle = marker: everything has had time to finish, the waits that follow must be settled
 //! outs: every op ends with ` run=<running> st=<R|S|X>`;
 //!   sub → `ok|rejected` ; pass → `started=<k.k> [err]` ; stop → `ok|err` ; wait → `Ok(v)|Err(m)|timeout|failed`
 use crate::rng::Rng;
@@ -15,18 +17,18 @@ use std::rc::Rc;
 use std::time::Duration;
 
 pub fn gen(r: &mut Rng, thorough: bool) -> String {
-    let max = *r.pick(&[1u64, 1, 2, 3, 8]);
+    let max = *r.pick(&[0u64, 1, 1, 2, 3, 8]);
     let n = if thorough { r.range(4, 40) } else { r.range(3, 18) };
     let mut ops = Vec::new();
     let mut nsub = 0u64;
     let mut uniq = 0u64;
     for _ in 0..n {
-        match r.below(14) {
+        match r.below(17) {
             0..=4 => {
                 let k = r.range(0, 3);
                 let mut steps: Vec<String> = Vec::new();
                 for _ in 0..k { uniq += 1; steps.push(match r.below(3) { 0 => "S".into(), _ => format!("D{}", 1000 * r.range(1, 50) + uniq) }); }
-                steps.push(match r.below(6) { 0 => "P".into(), _ => format!("R{}", r.range(1, 90)) });
+                steps.push(match r.below(9) { 0 => "P".into(), 1 => "C".into(), _ => format!("R{}", r.range(1, 90)) });
                 ops.push(format!("sub {} {}", steps.join(","), r.pick(&[0i64, 0, 0, 1, -1, 7, i64::MIN, i64::MAX])));
                 nsub += 1;
             }
@@ -35,12 +37,18 @@ pub fn gen(r: &mut Rng, thorough: bool) -> String {
             9 => if nsub > 0 { ops.push(format!("cancel {}", r.below(nsub))); },
             10 => if nsub > 0 { ops.push(format!("wait {}", r.below(nsub))); },
             11 => ops.push("stop".into()),
-            12 => ops.push(format!("max {}", r.range(1, 4))),
+            12 => ops.push(format!("max {}", r.range(0, 4))),
+            14 => ops.push("co".into()),
+            15 => if nsub > 0 { ops.push(format!("nowait {}", r.below(nsub))); },
+            16 => if nsub > 0 { let k = r.below(nsub); ops.push(format!("nowait {k}")); ops.push("pass".into()); ops.push(format!("cancel {k}")); },
             _ => ops.push("pass".into()),
         }
     }
     // wind down: let everything finish, stop, stop again
+    if max == 0 && r.chance(1, 2) { ops.push("max 2".into()); }
     for _ in 0..4 { ops.push("adv 100000000".into()); ops.push("pass".into()); }
+    ops.push("settle".into());
+    for k in 0..nsub.min(6) { ops.push(format!("wait {k}")); }
     ops.push("stop".into()); ops.push("pass".into()); ops.push("stop".into());
     format!("max {max} ; {}", ops.join(" | "))
 }
@@ -69,6 +77,7 @@ pub fn exec(body: &str, emit: &mut dyn FnMut(&str)) {
                             "S" => { if let Some(s) = SchedulableSuspender::current() { s.suspend(); } }
                             "D" => { if let Some(s) = SchedulableSuspender::current() { s.delay(Duration::from_nanos(rest.parse().unwrap())); } }
                             "P" => panic!("boom"),
+                            "C" => { if let Some(s) = SchedulableSuspender::current() { s.cancel(); } }
                             "R" => return Some(rest.parse().unwrap()),
                             _ => {}
                         }
@@ -86,6 +95,9 @@ pub fn exec(body: &str, emit: &mut dyn FnMut(&str)) {
             ["cancel", k] => { let k: usize = k.parse().unwrap(); if k < ids.len() && ids[k] != 0 { CoroutinePool::try_cancel_task(ids[k]); } "-".into() }
             ["stop"] => { if pool.stop(Duration::ZERO).is_ok() { "ok".into() } else { "err".into() } }
             ["max", n] => { pool.set_max_size(n.parse().unwrap()); "-".into() }
+            ["co"] => { if pool.submit_co(|_, ()| Some(1), None, None).is_ok() { "ok".into() } else { "rejected".into() } }
+            ["nowait", k] => { let k: usize = k.parse().unwrap(); if k < ids.len() && ids[k] != 0 { pool.clean_task_result(ids[k]); } "-".into() }
+            ["settle"] => "-".into(),
             ["wait", k] => {
                 let k: usize = k.parse().unwrap();
                 if k >= ids.len() || ids[k] == 0 { "-".to_string() } else {
